@@ -16,7 +16,17 @@ def step_lists():
     for n in (1, 2, 3):
         out += [list(p) for p in itertools.product(NAMES, repeat=n)]
     out += [["bogus"], ["underscores", "bogus"], ["bogus", "all_whitespace"], ["inline_whitespace", "no_such", "underscores"], []]
+    # custom callables as steps ("@rev": reverse, "@tail": drop the first character), a non-callable object ("#int")
+    out += [["@rev"], ["@tail"], ["@rev", "inline_whitespace"], ["all_whitespace", "@rev", "all_whitespace"], ["@tail", "underscores", "@rev"],
+            ["@rev", "@rev"], ["underscores", "@tail", "@tail"], ["#int"], ["@rev", "#int"], ["inline_whitespace", "@tail", "bogus"]]
     return out
+
+
+CUSTOM = {"@rev": lambda t: t[::-1], "@tail": lambda t: t[1:], "#int": 5}
+
+
+def real_steps(st):
+    return [CUSTOM.get(s, s) for s in st]
 
 
 def run_text(payload):
@@ -36,13 +46,13 @@ def run_text(payload):
             for st in lists:
                 e = {"steps": st, "whole": [], "seq": [], "werr": "", "serr": ""}
                 try:
-                    e["whole"] = _cp(clean_text(x, st))
+                    e["whole"] = _cp(clean_text(x, real_steps(st)))
                 except Exception as ex:  # noqa: BLE001
                     e["werr"] = type(ex).__name__
                 try:
                     y = x
                     for s in st:
-                        y = clean_text(y, [s])
+                        y = clean_text(y, real_steps([s]))
                     e["seq"] = _cp(y)
                 except Exception as ex:  # noqa: BLE001
                     e["serr"] = type(ex).__name__
